@@ -12,7 +12,7 @@ ID = 'C20'
 LEVEL = 'exploration'
 RULE = ('case = (error kind in {404, 404 whose whole path is the payload (URL-shaped text: scheme://[authority, //host, fragments), 404 next to an existing wildcard route (doubled / trailing slashes, extra segment, other case), 405 (literal and wildcard route), 400 malformed chunked body, 400 undecodable path, 500 handler crash whose exception text is the payload, '
         'last-resort critical-error page (custom error handler that raises / unknown charset)}, payload placed in the path, the query string (also as the value of well-known keys such as callback / jsonp / format), Host, '
-        'X-Forwarded-Host and 16 other request headers (X-Request-ID, User-Agent, Referer, Cookie ...), Accept = HTML or application/json, debug off; optionally after 1-3 earlier requests for the same error on the same application with another Accept / a benign payload). Payloads are built from fragments: marker markup <zqx>, closing tags of the '
+        'X-Forwarded-Host and 16 other request headers (X-Request-ID, User-Agent, Referer, Cookie ...), Accept = HTML or application/json, client headers of 11 kinds of user agents, debug off (possibly switched off at run time after error pages were rendered in debug mode); optionally after 1-3 earlier requests for the same error on the same application with another Accept / a benign payload). Payloads are built from fragments: marker markup <zqx>, closing tags of the '
         'template, attribute breakers ("zqx"), percent-encoded and double-encoded markup (%3Czqx%3E, %253C..), pre-escaped entities, format-string '
         'syntax ({0}, {e.body}, {url}, %s), backslash escapes (\\\\x3c), quotes, NUL, non-ASCII, optionally padded to 300-5000 characters before or after the marker. Oracle for text/html bodies: the tag/attribute skeleton '
         'parsed with html.parser equals the skeleton of the same error kind for a benign request, and none of <zqx, zqx>, "zqx, zqx" occurs verbatim; '
@@ -102,7 +102,20 @@ OTHER_HEADERS = ['X-Request-ID', 'X-Request-Id', 'X-Correlation-ID', 'User-Agent
 QUERY_KEYS = ['callback', 'jsonp', 'cb', 'format', 'debug', 'lang', 'redirect', 'next', '_', 'q']
 
 
-def make_request(kind, payload, where, accept):
+CLIENTS = [None, None, None, {'User-Agent': 'Mozilla/4.0 (compatible; MSIE 8.0; Windows NT 6.1)'}, {'User-Agent': 'curl/8.4.0'}, {'User-Agent': 'Mozilla/5.0 (X11; Linux x86_64) Gecko/20100101 Firefox/128.0'},
+           {'User-Agent': 'Googlebot/2.1 (+http://www.google.com/bot.html)', 'From': 'googlebot(at)googlebot.com'}, {'X-Requested-With': 'XMLHttpRequest', 'User-Agent': 'Mozilla/5.0 (compatible; MSIE 10.0; Trident/6.0)'},
+           {'Accept-Language': 'de-DE,de;q=0.9', 'Accept-Encoding': 'gzip, br', 'DNT': '1'}, {'Connection': 'keep-alive', 'Cache-Control': 'no-cache', 'Pragma': 'no-cache'},
+           {'User-Agent': ''}, {'Origin': 'https://other.example', 'Sec-Fetch-Mode': 'cors'}]
+
+
+def make_request(kind, payload, where, accept, client=None):
+    env, want = _make_request(kind, payload, where, accept)
+    for k, v in ((CLIENTS[client % len(CLIENTS)] if client else None) or {}).items():
+        env.setdefault('HTTP_' + k.upper().replace('-', '_'), v)            # what kind of client asks has no say in how request text is rendered
+    return env, want
+
+
+def _make_request(kind, payload, where, accept):
     qs = payload if 'query' in where else 'a=1'
     for w in where:
         if w.startswith('qkey:'):
@@ -175,7 +188,15 @@ def check_case(ctx, case):
         if rb.escaped is not None:
             raise CheckFailure(f'{kind}: exception escaped from an earlier request: {fmt_exc(rb.escaped)}')
         ctx.count('earlier_request_on_the_same_application')
-    env, want_code = make_request(kind, payload, where, accept)
+    if case.get('debug_before'):
+        # the application ran in debug mode (and rendered error pages) before debug was switched off at run time
+        app.setup({'debug': True})
+        for bk in ('500', '404'):
+            b_env, _ = make_request(bk, 'benign', ('path', 'query'), 'text/html' if case['debug_before'] == 1 else accept)
+            call_app(app, b_env)
+        app.setup({'debug': False})
+        ctx.count('debug_switched_off_at_run_time')
+    env, want_code = make_request(kind, payload, where, accept, case.get('client'))
     r = call_app(app, env)
     if r.escaped is not None:
         raise CheckFailure(f'{kind}: exception escaped: {fmt_exc(r.escaped)}')
@@ -233,6 +254,8 @@ CASE = st.fixed_dictionaries({
                                st.sampled_from(OTHER_HEADERS).map(lambda h: 'hdr:' + h), st.sampled_from(QUERY_KEYS).map(lambda k: 'qkey:' + k)),
                       min_size=1, max_size=4, unique=True).map(sorted),
     'accept': st.sampled_from([None, None, 'text/html', 'application/json', '*/*']),
+    'client': st.integers(0, 11),
+    'debug_before': st.sampled_from([0, 0, 0, 1, 2]),
     'before': st.one_of(st.just([]), st.just([]), st.lists(st.tuples(st.sampled_from(['same', 'same', 'benign', '<zqx>']),
                                                                       st.sampled_from([None, 'text/html', 'application/json', '*/*'])).map(list), min_size=1, max_size=3)),
 })
@@ -256,6 +279,16 @@ def run(ctx):
                     for accept in (None, 'application/json', 'text/html'):
                         ctx.guarded(check_case, {'kind': kind, 'payload': p, 'where': where, 'accept': accept})
         ctx.count('url_shaped_path_grid')
+        # every kind of client x every error kind x HTML / JSON; and debug switched off at run time after pages were rendered in debug mode
+        for kind in KINDS:
+            for client in range(len(CLIENTS)):
+                for accept in (None, 'application/json'):
+                    ctx.guarded(check_case, {'kind': kind, 'payload': '<zqx>"zqx"', 'where': ['path', 'query'], 'accept': accept, 'client': client})
+            for dbg in (1, 2):
+                for accept in (None, 'application/json', 'text/html'):
+                    for p in ('<zqx>', '"zqx"{0}'):
+                        ctx.guarded(check_case, {'kind': kind, 'payload': p, 'where': ['path', 'query'], 'accept': accept, 'debug_before': dbg})
+        ctx.count('client_and_debug_history_grid')
         for kind in ('404', '405', '500', '400-chunked'):
             for p in ['<zqx>', 'abc<zqx/src=//x.example/y.js', '"zqx"', '0<zqx', '</script><zqx>']:
                 for carrier in ['hdr:' + h for h in OTHER_HEADERS] + ['qkey:' + k for k in QUERY_KEYS]:
